@@ -37,9 +37,16 @@ def assocDel {β} (k : Str) : List (Str × β) → List (Str × β)
   | [] => []
   | (k', v') :: r => if k' = k then r else (k', v') :: assocDel k r
 
+/-- `del d[k]` on a dict (keys are unique in a real dict: every entry with the key goes) -/
+def assocDelAll {β} (k : Str) (l : List (Str × β)) : List (Str × β) := l.filter (fun kv => kv.1 ≠ k)
+
 def Scope.get (s : Scope) (k : Str) : Option Val := assocGet k s.items
 def Scope.set (s : Scope) (k : Str) (v : Val) : Scope := { s with items := assocSet k v s.items }
-def Scope.del (s : Scope) (k : Str) : Scope := { s with items := assocDel k s.items }
+def Scope.del (s : Scope) (k : Str) : Scope := { s with items := assocDelAll k s.items }
+/-- the keys `k.…` (dotted names below `k`, as stored by `import k.a.b`), in dict order -/
+def Scope.dottedBelow (s : Scope) (k : Str) : List Str := (s.items.map (·.1)).filter (fun key => (k ++ ['.']).isPrefixOf key)
+/-- `for name in [key for key in scope if key.startswith(k + ".")]: del scope[name]` -/
+def Scope.delBelow (s : Scope) (k : Str) : Scope := { s with items := s.items.filter (fun kv => !((k ++ ['.']).isPrefixOf kv.1)) }
 
 abbrev Heap := List Scope
 
